@@ -80,7 +80,7 @@ CLAIMED = {
    technique="Lean 4 proof (list induction on the stored history) + differential correspondence through the HTTP handler",
    design="§8 C08"),
  "C10": dict(
-   text="Theorems over the retention machine (append under the next sequence, then delete every key <= last-size when the cleanup coin says so), for every size and every coin sequence: the retained history is a contiguous suffix of the accepted updates with consecutive sequence numbers, it never holds fewer than min(n,size), exactly that many when cleanup always runs, size 0 keeps everything, and a replay from any retained id returns exactly the accepted updates after it. Tie: real BoltTransport histories with the model as acceptor of the runtime's coin (bucket keys read back after every publish), payloads spanning B-tree pages, restarts; the property's oracle is also evaluated on the implementation alone.",
+   text="Theorems over the retention machine (append under the next sequence, then delete every key <= last-size when the cleanup coin says so), for every size and every coin sequence: the retained history is a contiguous suffix of the accepted updates with consecutive sequence numbers, it never holds fewer than min(n,size), exactly that many when cleanup always runs, size 0 keeps everything, and a replay from any retained id returns exactly the accepted updates after it; at machine width (BitVec 64) the guard `size >= last` and the bound `last - size` of cleanup delete exactly the keys the Nat-level model drops, for every 64-bit size, last sequence and key (no wrap-around), the shape of that guard being a fact regenerated from bolt.go on every run (witness theorem: the signed-arithmetic rewrite deletes everything for size 2^64-1). Tie: real BoltTransport histories (sizes up to 2^64-1) with the model as acceptor of the runtime's coin (bucket keys read back after every publish), payloads spanning B-tree pages, restarts; the property's oracle is also evaluated on the implementation alone.",
    note=TB + "bbolt's B+tree/cursor semantics are not modelled (the correspondence is what found the cursor-skip defect F4, now fixed in /repo).",
    technique="Lean 4 proof (invariant by induction over publish/coin histories) + acceptor-mode correspondence on the real Bolt file",
    design="§8 C10"),
